@@ -222,7 +222,7 @@ class C02(Check):
                 st['nested_reacquire'] += 1
                 if e[2] is not True:
                     res.violate('C02:nested-refused', 'holder of a reentrant lock could not re-acquire it')
-        if r.verdict in ('deadlock', 'stepbound'):
+        if r.verdict in ('deadlock', 'stepbound', 'timebound'):
             # liveness is C12's subject; here it only means the execution says nothing more
             st['sim_' + r.verdict] += 1
             res.inconclusive = f'{r.verdict}: {r.blocked}'
